@@ -468,10 +468,12 @@ def graph_edges(r):
     comps, ops = {}, set()
     n = 0
     seen = set()
-    for line in r.printed():
-        if not line.startswith('{"s"') or line in seen:
+    for raw in r.out.splitlines():
+        # PrintT shows the JSON text as a TLA+ string literal; its escapes (\" and \\) are JSON's
+        if not raw.startswith('"{\\"s\\"') or raw in seen:
             continue
-        seen.add(line)
+        seen.add(raw)
+        line = json.loads(raw)
         m = _HEAD.match(line)
         if m:
             key = (m.group(1), m.group(2) == "true")
@@ -499,8 +501,10 @@ def run(ck):
                      quick and size == 2))
     # -- 2. graph export for the replay --------------------------------------------------------
     if quick:
-        gjobs = [("g0", names3, 2, 0, ALL_KINDS, both), ("g1", names3, 2, 1, ALL_KINDS, both),
-                 ("g2", names3, 2, 2, ALL_KINDS, both), ("gu", names2, 2, -1, ALL_KINDS, both)]
+        # the largest graph first, split in two so that its replay can start early
+        gjobs = [("g2a", names3, 2, 2, ALL_KINDS[2:], both), ("g2b", names3, 2, 2, ALL_KINDS[:2], both),
+                 ("g1", names3, 2, 1, ALL_KINDS, both), ("gu", names2, 2, -1, ALL_KINDS, both),
+                 ("g0", names3, 2, 0, ALL_KINDS, both)]
     else:
         gjobs = [("g0", names3, 3, 0, ALL_KINDS, both), ("g1", names3, 3, 1, ALL_KINDS, both),
                  ("gu3", names2, 3, -1, ALL_KINDS, both)]
